@@ -101,21 +101,25 @@ PEND = (0xFF00, 0xFF01)
 
 @cond(bounds='C-FIND user against C-FIND provider (query/retrieve and modality-worklist variants per instance): k = 0..3 '
              'matches (symbolic) with pending status FF00 / FF01 per match (symbolic), message id symbolic 0..65535, '
-             'maximum PDU length 16384 or 40 (multi-fragment responses; symbolic), provider-thread schedule eager / '
-             'lagging (symbolic)', family={'mwl': [0, 1]}, timeout=300)
-def find_end_to_end(k: int, w0: bool, w1: bool, w2: bool, mid: int, small: bool, lazy: bool) -> bool:
+             'maximum PDU length 16384, 40 (multi-fragment responses) or exactly one identifier + 6 (one instance each), provider-thread schedule eager / '
+             'lagging (symbolic)', family={'mwl': [0, 1], 'msel': [0, 1, 2]}, timeout=300)
+def find_end_to_end(k: int, w0: bool, w1: bool, w2: bool, mid: int, lazy: bool) -> bool:
     """
     pre: 0 <= k <= 3 and 0 <= mid <= 65535
     post: _
     """
     k = pick(k, 0, 3)
+    msel = fam('msel')
+    # maximum PDU length: large, small (many fragments), or such that the first match is exactly one full fragment
+    maxlen = (16384, 40, len(dsutils.encode(pool(0), True, True)) + 6)[msel]
+    small = msel == 1
     sop = MWL if fam('mwl') else ROOT
     scp = sopclass.modality_work_list_scp if fam('mwl') else sopclass.qr_find_scp
     scu = sopclass.modality_work_list_scu if fam('mwl') else sopclass.qr_find_scu
     pend = [PEND[1] if w else PEND[0] for w in (w0, w1, w2)][:k]
     matches = [(pool(i), statuses.Status(p, dm.CFindRSPMessage)) for i, p in enumerate(pend)]
     pae = ProviderAE(matches)
-    ua = UserAssoc(None, pae, scp, 3, sop, 40 if small else 16384, lazy)
+    ua = UserAssoc(None, pae, scp, 3, sop, maxlen, lazy)
     got = []
     n = 0
     for a, b in scu(ua, ctx_of(3, sop), query(), mid):
@@ -137,7 +141,7 @@ def find_end_to_end(k: int, w0: bool, w1: bool, w2: bool, mid: int, small: bool,
     # the query reached the provider's handler unchanged, once
     ok = ok and len(pae.seen) == 1 and dsutils.encode(pae.seen[0], True, True) == dsutils.encode(query(), True, True)
     ok = ok and len(ua.script) == 0
-    deep(ok and k == 3 and lazy and small and w1)
+    deep(ok and k == 3 and lazy and w1)
     return ok
 
 
